@@ -233,6 +233,18 @@ def run(F, rep):
             nrd += 1
             rep.ob("C01-READER", o["instance"], o["ok"], detail=o["detail"], site=o["site"], how=o["how"], key=o["key"].replace(o["rule"], "C01-READER/" + o["rule"][4:]))
     rep.floor("C01-READER", nrd, 20, "reader-state clauses shared with C08")
+    # (INPUT) "plain or gzip, any line wrapping, one file per sample or one PanSN file": what reaches the compressor is the whole
+    # input - every gzip member (C19-G1), every sequence line (G3), the sample its header names (G8/G9)
+    from rules import c19
+    sub19 = type(rep)(rep.pid, rep.tier)
+    sub19.cfg = getattr(rep, "cfg", "dev")
+    c19.run(F, sub19)
+    nin = 0
+    for o in sub19.obligations:
+        if o["rule"] in ("C19-G1", "C19-G3", "C19-G8", "C19-G9"):
+            nin += 1
+            rep.ob("C01-INPUT", o["instance"], o["ok"], detail=o["detail"], site=o["site"], how=o["how"], key=o["key"].replace(o["rule"], "C01-INPUT/" + o["rule"][4:]))
+    rep.floor("C01-INPUT", nin, 8, "input-reading clauses shared with C19")
     if getattr(F, "cfg", "dev") == "dev":
         from rules import c03 as c03v
         c03v.vint_rule(F, rep, "C01-DESC", want=("rt",))       # raw lengths and ids of the descriptors travel through this code
